@@ -37,11 +37,20 @@ def replay(d):
             r = tfn(s)
             if r is None and (which == 'float' or s.strip() == ''): return blank_value
             return r
+    blank1 = object()
+    pre = ''
+    if d.get('prior_text') is not None:
+        # an earlier call in the same process, on another text with another blank value
+        pre = 'after %s(%r, <other blank value>): ' % (getattr(fn, '__name__', 'fn'), d['prior_text'])
+        try: fn(d['prior_text'], blank1)
+        except BaseException as ex:
+            return True, '%s(%r) raised %s: %s' % (fn.__name__, d['prior_text'], type(ex).__name__, ex)
     try:
         got = fn(t, blank)
     except BaseException as ex:
-        return True, '%s(%r) raised %s: %s' % (fn.__name__, t, type(ex).__name__, ex)
+        return True, '%s%s(%r) raised %s: %s' % (pre, fn.__name__, t, type(ex).__name__, ex)
     problems = []
+    if got is blank1: problems.append('the blank value of the EARLIER call was returned')
     py = float if which == 'float' else int
     try:
         pv = py(t); pyacc = True
@@ -60,5 +69,5 @@ def replay(d):
         bad = (got is not None) if which == 'int' else not (isinstance(got, float) and math.isnan(got))
         if bad: problems.append('impossible character should give nan/None')
     if problems:
-        return True, '%s(%r) -> %r: %s' % (fn.__name__, t, got, '; '.join(problems))
-    return False, '%s(%r) -> %r as expected' % (fn.__name__, t, got)
+        return True, '%s%s(%r) -> %r: %s' % (pre, fn.__name__, t, got, '; '.join(problems))
+    return False, '%s%s(%r) -> %r as expected' % (pre, fn.__name__, t, got)
